@@ -196,6 +196,22 @@ Theorem C11_reverted_no_effect : forall s o, step s (Reverted o) = (s, false).
 Proof. exact reverted_no_effect. Qed.
 Print Assumptions C11_reverted_no_effect.
 
+(* 12. account migration (x/migrate DistrStakingMigrate): the new address holds exactly what the old one held
+       on every validator, validators are unchanged, the invariants are preserved, and the incoming-
+       redelegation guard follows the account — the new address has an incoming redelegation on a validator
+       exactly if the old one had (so C11_guard_both_entry_points keeps refusing its transfers) *)
+Theorem C11_migrate : forall s s' from to,
+  SInv s -> exec s (Migrate from to) = Ok s' ->
+  SInv s' /\ from <> to /\
+  (forall dst, has_receiving to dst s' = has_receiving from dst s) /\
+  (forall v vs, get_val v s = Some vs ->
+     exists vs', get_val v s' = Some vs' /\
+       v_tokens vs' = v_tokens vs /\ v_shares vs' = v_shares vs /\
+       dget to vs' = dget from vs /\ dget from vs' = 0 /\
+       (forall c, c <> from -> c <> to -> kget c (v_dels vs') = kget c (v_dels vs))).
+Proof. exact migrate_conserves. Qed.
+Print Assumptions C11_migrate.
+
 Theorem C11_nonvacuous :
   all_ok (gen_state 2) ex_ops = true /\
   val_dget (run (gen_state 2) ex_ops) 0 3 = dec_of_int 7 + dec_of_int (20 * prec) /\
